@@ -1,6 +1,96 @@
 import Infretis.Model.Proto
-open Infretis.Proto
+import Infretis.Model.Geom
+open Infretis Infretis.Proto Infretis.Geom
 
-def handle (_toks : List String) : String := "bad-op"
+/-
+Line protocol of the C20 driver.
+  rint  <rat>                               → int
+  wrap  <d> <L>                             → rat   (pbcWrap)  | "nan" when compNan
+  calc  <asis|rep> <op> <pos> <vel> <box>   → "<value> | pure"  or  "<value> | mutated"
+     op   := distance i0 i1 p | distancevel i0 i1 p | position i dim | velocity i dim
+           | dihedral i0 i1 i2 i3 p | puckering i0 i1 i2 i3 i4 i5 p        (p ∈ {0,1})
+     pos, vel := length-prefixed list of rationals, 3 per atom
+     box  := "none" | length-prefixed list of rationals
+     value := "ok n r₁ … rₙ" | "err:index" | "nan"
+-/
+
+def toV3s : List Rat → Option (List V3)
+  | [] => some []
+  | a :: b :: c :: t => (toV3s t).map (fun r => ⟨a, b, c⟩ :: r)
+  | _ => none
+
+def showVal : Except Err (List Rat) → String
+  | .ok xs => "ok " ++ showList showRat xs
+  | .error .index => "err:index"
+  | .error .nan => "nan"
+
+def parseBool? (s : String) : Option Bool :=
+  if s = "1" then some true else if s = "0" then some false else none
+
+def parseOp : List String → Option (OP × List String)
+  | "distance" :: a :: b :: p :: rest =>
+    match parseInt? a, parseInt? b, parseBool? p with
+    | some a, some b, some p => some (.distance a b p, rest)
+    | _, _, _ => none
+  | "distancevel" :: a :: b :: p :: rest =>
+    match parseInt? a, parseInt? b, parseBool? p with
+    | some a, some b, some p => some (.distancevel a b p, rest)
+    | _, _, _ => none
+  | "position" :: a :: b :: rest =>
+    match parseInt? a, parseInt? b with
+    | some a, some b => some (.position a b, rest)
+    | _, _ => none
+  | "velocity" :: a :: b :: rest =>
+    match parseInt? a, parseNat? b with
+    | some a, some b => some (.velocity a b, rest)
+    | _, _ => none
+  | "dihedral" :: a :: b :: c :: d :: p :: rest =>
+    match parseInt? a, parseInt? b, parseInt? c, parseInt? d, parseBool? p with
+    | some a, some b, some c, some d, some p => some (.dihedral a b c d p, rest)
+    | _, _, _, _, _ => none
+  | "puckering" :: a :: b :: c :: d :: e :: f :: p :: rest =>
+    match parseInt? a, parseInt? b, parseInt? c, parseInt? d, parseInt? e, parseInt? f, parseBool? p with
+    | some a, some b, some c, some d, some e, some f, some p => some (.puckering a b c d e f p, rest)
+    | _, _, _, _, _, _, _ => none
+  | _ => none
+
+def parseSys (toks : List String) : Option Sys :=
+  match takeList parseRat? toks with
+  | some (ps, rest) =>
+    match takeList parseRat? rest with
+    | some (vs, rest) =>
+      match toV3s ps, toV3s vs with
+      | some pos, some vel =>
+        match rest with
+        | ["none"] => some ⟨pos, vel, none⟩
+        | _ =>
+          match takeList parseRat? rest with
+          | some (b, []) => some ⟨pos, vel, some b⟩
+          | _ => none
+      | _, _ => none
+    | none => none
+  | none => none
+
+def handle (toks : List String) : String :=
+  match toks with
+  | ["rint", x] =>
+    match parseRat? x with
+    | some x => toString (rint x)
+    | none => "bad-op"
+  | ["wrap", d, l] =>
+    match parseRat? d, parseRat? l with
+    | some d, some l => if compNan d l then "nan" else showRat (pbcWrap d l)
+    | _, _ => "bad-op"
+  | "calc" :: v :: rest =>
+    let var : Option Variant := if v = "asis" then some .asIs else if v = "rep" then some .repaired else none
+    match var, parseOp rest with
+    | some var, some (op, rest) =>
+      match parseSys rest with
+      | some s =>
+        let r := calculate var op s
+        showVal r.1 ++ (if r.2 = s then " | pure" else " | mutated")
+      | none => "bad-op"
+    | _, _ => "bad-op"
+  | _ => "bad-op"
 
 def main : IO Unit := mainWith handle
